@@ -730,7 +730,14 @@ func NewStd(name string, models []string, proxy Handler) *Std {
 }
 
 func (s *Std) handle(rec *Record) *Resp {
-	switch rec.Path {
+	// health / listing paths may be resolved under an endpoint base path
+	hp := rec.Path
+	if strings.HasSuffix(hp, s.HealthPath) {
+		hp = s.HealthPath
+	} else if strings.HasSuffix(hp, s.ModelsPath) {
+		hp = s.ModelsPath
+	}
+	switch hp {
 	case s.HealthPath:
 		s.HealthHits.Add(1)
 		s.mu.Lock()
@@ -809,7 +816,7 @@ func (s *Std) Health2xxBetween(a, b int64) bool {
 func (s *Std) ProxyRecords() []*Record {
 	var out []*Record
 	for _, r := range s.Records() {
-		if r.Path != s.HealthPath && r.Path != s.ModelsPath {
+		if !strings.HasSuffix(r.Path, s.HealthPath) && !strings.HasSuffix(r.Path, s.ModelsPath) {
 			out = append(out, r)
 		}
 	}
